@@ -1,14 +1,24 @@
-"""C12 cases: formatting traits, every flag combination; primitive oracle at 8..128 bits (post hook)."""
+"""C12 cases: formatting traits, every flag combination (six fill classes, three of them multi-byte chars),
+minimum widths placed around the natural length of the text, every quick/thorough configuration (reduced sweep
+above 20 digits) plus the widest instantiation of every digit type (8192 bits); primitive oracle (post hook) for
+every configuration below or at 128 bits: the primitive of equal width where one exists, otherwise
+`u128`/`i128` holding the same value."""
+import sys
 from .common import *
 
+if hasattr(sys, "set_int_max_str_digits"):
+    sys.set_int_max_str_digits(0)          # 8192-bit values have 2467 decimal digits
+
 TRAITS = ["display", "debug", "binary", "octal", "lower_hex", "upper_hex", "lower_exp", "upper_exp"]
+DECIMAL = ("display", "debug", "lower_exp", "upper_exp")
 PRIM_OF = {8: "8", 16: "16", 32: "32", 64: "64", 128: "128"}
+WIDEST_CFGS = ["8x1024", "16x512", "32x256", "64x128"]     # 8192 bits with every digit type
 
 
-def all_flags():
+def all_flags(fills="ds"):
     out = []
     for a in "nlcr":
-        for f in ("ds" if a != "n" else "d"):
+        for f in (fills if a != "n" else "d"):
             for s in "p-":
                 for al in "a-":
                     for z in "z-":
@@ -16,13 +26,21 @@ def all_flags():
     return out
 
 
-FLAGS = all_flags()
+FLAGS = all_flags()                                                  # the 56 one-byte-fill combinations
+# fill classes u '€' (3 bytes), o '0', e 'é' (2 bytes), g U+1D11E (4 bytes); a fill needs an alignment
+FLAGS_X = [f for f in all_flags("uoeg") if f[0] != "n"]              # 96 more
+ALL_FLAGS = FLAGS + FLAGS_X
+
+
+def dec_digits(W):
+    """number of decimal digits of 2^W - 1"""
+    return len(str((1 << W) - 1))
 
 
 def fmt_value(rng, w, n):
     W = w * n
     M = 1 << W
-    c = rng.randrange(10)
+    c = rng.randrange(16)
     if c == 0:
         k = rng.randrange(0, 60)
         return "10^k", (10 ** k * rng.randrange(1, 10)) % M        # trailing zeros for the exponent forms
@@ -33,30 +51,147 @@ def fmt_value(rng, w, n):
         return "interior-zero", v % M
     if c == 2:
         return "neg-small", pat(-rng.randrange(1, 1000), W)
+    if c == 3:
+        # m * 10^k below the capacity, for EVERY decimal length of the configuration: one-digit mantissa (the
+        # `d e<k>` branch of the exponent forms), a mantissa with interior zeros, a long random mantissa
+        D = dec_digits(W)
+        k = rng.randrange(0, D)
+        m = rng.choice([1, rng.randrange(1, 10), 10 ** rng.randrange(1, 6) + 1, rng.randrange(1, 10 ** rng.randrange(1, 8)),
+                        rng.randrange(1, max(2, M // 10 ** k))])
+        v = m * 10 ** k
+        if v >= M:
+            v = 10 ** k if 10 ** k < M else 10 ** (k - 1)
+        if rng.random() < 0.4:
+            v = pat(-v, W)
+        return "mantissa*10^k", v
+    if c == 4:
+        # 10^k, 10^k +- 1 and their negatives: the numerals of every length (all configurations)
+        D = dec_digits(W)
+        k = rng.randrange(0, D)
+        v = 10 ** k + rng.choice([0, 0, -1, 1])
+        if v >= M:
+            v = 10 ** (k - 1) if k else 1
+        if rng.random() < 0.4:
+            v = pat(-v, W)
+        return "pow10+-1", v
+    if c == 5:
+        # every digit = a random value shifted right by a random amount (leading zero bits / nibbles / octal
+        # groups inside the interior digits), some digits zero, the top digits possibly zero
+        v = 0
+        top = rng.randrange(1, n + 1)
+        for i in range(top):
+            d = rng.randrange(1 << w) >> rng.randrange(w + 1)
+            if rng.random() < 0.2:
+                d = 0
+            v |= d << (w * i)
+        return "leading-zero-bits-in-digits", v
+    if c == 6:
+        # r^k and r^k - 1 for the radices of the four bit-pattern forms (the text gains a digit), +1 sometimes
+        r, L = rng.choice([(2, W), (8, (W + 2) // 3), (16, W // 4)])
+        k = rng.randrange(0, L)
+        v = r ** k - rng.choice([0, 1]) + rng.choice([0, 0, 0, r ** rng.randrange(0, k + 1)])
+        return "radix-pow", pat(v, W) if rng.random() < 0.8 else pat(-v, W)
+    if c == 7:
+        # around the capacity of the primitive integers (8, 16, 32, 64, 128 bits) and of one / two / ... digits:
+        # 2^k + small, and a random value of exactly k + 1 .. k + w bits ("fits in a u128" shortcuts and the like)
+        k = rng.choice([8, 16, 32, 64, 128, 128, w, 2 * w, w * rng.randrange(1, n + 1)])
+        if rng.random() < 0.5:
+            v = (1 << k) + rng.choice([-2, -1, 0, 1, 2, rng.randrange(1 << min(k, 8))])
+        else:
+            b = k + rng.randrange(1, w + 1)
+            v = rng.randrange(1 << (b - 1), 1 << b)
+        return "primitive-capacity", pat(v, W) if rng.random() < 0.75 else pat(-v, W)
     return value(rng, w, n)
 
 
+def natural_len(s, W, tr, fl, a):
+    """length in chars of the text before padding (sign, prefix, digits) - only used to place the minimum
+    widths of the requests next to it; never compared with anything"""
+    z = to_signed(a, W) if s == "i" else a
+    neg = False
+    if tr in ("display", "debug"):
+        body = len(str(abs(z)))
+        neg = z < 0
+    elif tr in ("lower_exp", "upper_exp"):
+        neg = z < 0
+        if z == 0:
+            body = 3
+        else:
+            d = str(abs(z))
+            t = d.rstrip("0")
+            body = len(t) + (1 if len(t) > 1 else 0) + 1 + len(str(len(d) - 1))
+    else:
+        body = len(format(a, {"binary": "b", "octal": "o", "lower_hex": "x", "upper_hex": "x"}[tr]))
+    pfx = 2 if fl[3] == "a" and tr not in DECIMAL else 0
+    return body + (1 if neg or fl[2] == "p" else 0) + pfx
+
+
+def pick_width(rng, L):
+    """a minimum width: none / tiny / just below, at, just above the natural length `L` (odd and even amounts of
+    padding: the centre alignment splits it unevenly) / far above / the historical fixed ones"""
+    c = rng.randrange(16)
+    if c == 0:
+        return "-"
+    if c == 1:
+        return rng.choice([0, 1])
+    if c == 2:
+        return max(0, L - 1)
+    if c == 3:
+        return L
+    if c == 4:
+        return L + 1
+    if c == 5:
+        return L + 2
+    if c == 6:
+        return L + 3
+    if c == 7:
+        return L + 2 * rng.randrange(2, 20)
+    if c == 8:
+        return L + 2 * rng.randrange(2, 20) + 1
+    if c == 9:
+        return L + rng.randrange(40, 300)
+    if c == 10:
+        return rng.randrange(0, 256)
+    if c == 11:
+        return 255
+    if c == 12:
+        return rng.choice([5, 12, 40])
+    if c == 13:
+        return max(0, L - rng.randrange(2, 10))
+    return rng.choice(["-", rng.randrange(0, 41), L + rng.randrange(1, 9)])
+
+
+def req(rng, s, cfg, tr, fl, a, tag, width=None):
+    w, n = wn(cfg)
+    if width is None:
+        width = pick_width(rng, natural_len(s, w * n, tr, fl, a))
+    return f"fmt {s}{cfg} {tr} {fl} {width} {hx(a)}", tag
+
+
 def gen(rng, tier):
-    reps = 6 if tier == "thorough" else 2
+    reps = 3 if tier == "thorough" else 1
     for cfg in cfgs(tier):
         w, n = wn(cfg)
-        W = w * n
-        if n > 20:
-            continue
         for s in "ui":
             for tr in TRAITS:
-                for fl in FLAGS:
+                # above 20 digits: a random quarter-or-less of the flag combinations per (sign, trait)
+                flags = ALL_FLAGS if n <= 20 else rng.sample(ALL_FLAGS, 16 if tier != "thorough" else 40)
+                for fl in flags:
                     for _ in range(reps):
                         t, a = fmt_value(rng, w, n)
-                        width = rng.choice(["-", "-", 0, 1, 5, 12, 40, rng.randrange(0, 41), 255])
-                        yield f"fmt {s}{cfg} {tr} {fl} {width} {hx(a)}", t
+                        yield req(rng, s, cfg, tr, fl, a, t)
+                # more values per (configuration, sign, trait) than flag combinations need, random flags
+                for _ in range((24 if n <= 20 else 8) * reps):
+                    t, a = fmt_value(rng, w, n)
+                    yield req(rng, s, cfg, tr, rng.choice(ALL_FLAGS), a, t)
     yield from _wide(rng, tier)
+    yield from _widest(rng, tier)
     yield from _digit_count_boundaries(rng, tier)
 
 
 def _digit_count_boundaries(rng, tier):
-    """10^k and 10^k - 1 for EVERY k below the capacity, decimal traits (Display/Debug/exp): the numerals of
-    every length (added after seeded change C12-r4m1: a digit-count estimate one short from 681 bits on)"""
+    """10^k, 10^k - 1 and -10^k for EVERY k below the capacity, decimal traits (Display/Debug and exp): the numerals
+    of every length (added after seeded change C12-r4m1: a digit-count estimate one short from 681 bits on)"""
     for cfg in ["64x16", "8x17"] + (["64x64"] if tier == "thorough" else []):
         w, n = wn(cfg)
         W = w * n
@@ -65,8 +200,10 @@ def _digit_count_boundaries(rng, tier):
         while p < M:
             for v in (p, p - 1, pat(-p, W)):
                 s = "i" if v >= M // 2 or (k & 1) else "u"
-                tr = TRAITS[[0, 1, 6, 7][(k + (v & 1)) % 4]]
-                yield f"fmt {s}{cfg} {tr} {rng.choice(FLAGS)} {rng.choice(['-', '-', 0, 12, 400])} {hx(v)}", "digit-count-boundary"
+                # every value through one plain-decimal form AND one exponent form (the exponent gains a digit at
+                # k = 10, 100, 1000; the mantissa is one digit for 10^k and k digits for 10^k - 1)
+                for tr in (TRAITS[(k + (v & 1)) % 2], TRAITS[6 + (k + (v & 1)) // 2 % 2]):
+                    yield f"fmt {s}{cfg} {tr} {rng.choice(FLAGS)} {rng.choice(['-', '-', 0, 12, 400])} {hx(v)}", "digit-count-boundary"
             k += 1
             p *= 10
         for tr, r in (("binary", 2), ("octal", 8), ("lower_hex", 16), ("upper_hex", 16)):
@@ -93,8 +230,62 @@ def _wide(rng, tier):
                     yield f"fmt {s}{cfg} {tr} {fl} {width} {hx(a % M)}", "very-wide"
 
 
+def _widest(rng, tier):
+    """the widest in-scope instantiation of EVERY digit type (8192 bits: 1024 / 512 / 256 / 128 digits), all eight
+    traits, signed and unsigned, padded just around the natural length (binary: > 8192 chars).  The decimal forms
+    of the 8-bit-digit type cost ~0.5 s per request in the model, hence one request per trait there (quick)."""
+    for cfg in WIDEST_CFGS:
+        w, n = wn(cfg)
+        W = w * n
+        M = 1 << W
+        D = dec_digits(W)
+        for tr in TRAITS:
+            if tier == "thorough":
+                signs = "uiuiui"
+            elif tr in DECIMAL:
+                signs = rng.choice("ui") if w == 8 else "ui" if w == 16 else "uiu"
+            else:
+                signs = "uiui"
+            for s in signs:
+                c = rng.randrange(6)
+                if c == 0:
+                    a = rng.randrange(M >> 8, M)                                   # full length
+                elif c == 1:
+                    a = pat(-rng.randrange(1, M >> rng.randrange(1, W)), W)         # negative, random magnitude
+                elif c == 2:
+                    kk = rng.randrange(D - 40, D - 1)
+                    a = rng.randrange(1, 10 ** rng.randrange(1, 30)) * 10 ** kk % M  # exponent >= 1000, trailing zeros
+                elif c == 3:
+                    # sparse digits: interior digits zero or with leading zero bits, top digit set
+                    a = rng.randrange(1, 1 << w) << (w * (n - 1))
+                    for i in rng.sample(range(n - 1), min(n - 1, 12)):
+                        a |= (rng.randrange(1 << w) >> rng.randrange(w)) << (w * i)
+                elif c == 4:
+                    a = rng.choice([M - 1, M >> 1, (M >> 1) - 1, (M >> 1) + 1])
+                else:
+                    a = rng.randrange(1 << rng.randrange(1, W))                   # random length
+                yield req(rng, s, cfg, tr, rng.choice(ALL_FLAGS), a, "widest-8192")
+
+
+def prim_line(t):
+    """the `fmt_prim` request for the `fmt` request `t` (split), or None above 128 bits: the primitive of equal
+    width if there is one; otherwise "a primitive integer holding the same value": `u128` for unsigned values and
+    for the bit pattern of the radix forms, `i128` (sign-extended) for the signed decimal forms"""
+    s, cfg = t[1][0], t[1][1:]
+    w, n = wn(cfg)
+    W = w * n
+    if W in PRIM_OF:
+        return "fmt_prim " + s + PRIM_OF[W] + " " + " ".join(t[2:])
+    if W > 128:
+        return None
+    a = int(t[5], 16)
+    if s == "i" and t[2] in DECIMAL:
+        return "fmt_prim i128 " + " ".join(t[2:5]) + " " + hx(pat(to_signed(a, W), 128))
+    return "fmt_prim u128 " + " ".join(t[2:])
+
+
 def post(ctx, lines, R, mo_sp):
-    """crate vs Rust's own formatter on a primitive of the same width (8, 16, 32, 64, 128 bits)."""
+    """crate vs Rust's own formatter on a primitive holding the same value (every configuration <= 128 bits)."""
     bins = ctx.get("bins")
     if not bins:
         return []
@@ -103,16 +294,16 @@ def post(ctx, lines, R, mo_sp):
         t = l.split(" ")
         if t[0] != "fmt":
             continue
-        w, n = wn(t[1][1:])
-        if w * n in PRIM_OF:
+        p = prim_line(t)
+        if p is not None:
             idx.append(i)
-            plines.append("fmt_prim " + t[1][0] + PRIM_OF[w * n] + " " + " ".join(t[2:]))
+            plines.append(p)
     out = ctx["run_chunked"](bins["dbg"], plines)
     bad = []
     for i, o in zip(idx, out):
         for mode, outs in R.items():
             if outs[i] not in ("skip", o):
-                bad.append({"line": lines[i], "mode": mode, "crate": outs[i], "spec": o + "  (Rust's formatter on the primitive of equal width)", "model": mo_sp[i]})
+                bad.append({"line": lines[i], "mode": mode, "crate": outs[i], "spec": o + "  (Rust's formatter on a primitive holding the same value)", "model": mo_sp[i]})
     ctx["prim_oracle_cases"] = len(idx)
     return bad
 
